@@ -16,6 +16,7 @@ META = {
     'note': 'Trusted: TLC, hook H1 (injection happens before the interpreter polls its queue at that boundary), signals for KEY(1), KEY(2), PEN, STRIG(0). TIMER/PLAY/COM use the same handler '
             'logic in the code (EventHandler) but are not injected (COM needs a serial endpoint, TIMER/PLAY real time). STOP of a trap that is OFF is treated as OFF (GW-BASIC semantics).',
 }
+META['text'] += ' For every family program the first occurrence that made handler 1 run is repeated with a second occurrence at every boundary inside the handler (before/after its own KEY(1) ON/OFF/STOP).'
 
 
 def schedules_for(ctx, n, quick):
